@@ -143,6 +143,7 @@ def main(tier):
                    "the crate's ShardStore impl)", "SQL literal lexer", "Rust lexer for PS-1",
                    "keep-by-design table list in rules/c01.py"]
     chk.rule("PS-1", "sibling pool code is a consistent renaming", floor=350)
+    chk.rule("PS-2", "Ironwood code equals its Orchard sibling up to the pool renaming", floor=100)
     chk.rule("PS-3", "pool-tagged arguments bind the same pool's parameters", floor=15)
     chk.rule("UNDO", "every table written by scanning is undone, cascaded or kept by design", floor=15)
     chk.rule("IDEM", "every INSERT on the scan path is idempotent", floor=15)
@@ -153,6 +154,7 @@ def main(tier):
     chk.rule("control", "positive controls", floor=2)
 
     ps_rules.ps1(chk, FILES)
+    ps_rules.ps2(chk, FILES)
     w = zf.World(extract.facts_dir("all"))
 
     def scope(f):
